@@ -35,7 +35,7 @@ def run(ctx):
     except RecursionError:
         lev = None
     if lev is not None and lev[0] == "bad":
-        ctx.violation("Z2", scan, "model:lexer-position", "for the text %r: %s" % (lev[1], lev[2]), node=scan.node,
+        ctx.violation(lev[3] if len(lev) > 3 else "Z2", scan, "model:lexer-position", "for the text %r: %s" % (lev[1], lev[2]), node=scan.node,
                       witness="parse(%r): the error is reported at another place than the offending token" % (lev[1],))
     elif lev is not None:
         ctx.holds("Z1", "%s: at each of %d yields / lexical errors over %d sample texts (LF and CRLF, comments and multi-byte text before the "
@@ -466,25 +466,46 @@ def lexer_eval(ctx, R):
         for p in paths:
             cur = 0
             last = None
+            replay_from = None
             evs = [x for x in p.events if x[0] in ("yield", "rewind")]
             for i, ev in enumerate(evs):
                 if ev[0] == "rewind":
-                    if last is not None:
-                        cur = last
+                    replay_from = last
                     continue
                 v = fd_concrete(ev[1])
                 if not (isinstance(v, tuple) and len(v) == 2 and isinstance(v[1], bytes)):
                     return None
+                got = None
+                if replay_from is not None:
+                    # the consumer asked for the token once more: it is delivered again - or the request had no effect on this
+                    # lexer (whether it must have one is rule X2's matter); the positions are judged either way
+                    after = cur
+                    while after < len(text) and text[after] in _WS:
+                        after += 1
+                    cands = [c for c in (replay_from, after) if text.startswith(v[1], c)]
+                    if len(cands) == 2 and cands[0] != cands[1]:
+                        got = position(ev[2])
+                        if got is None:
+                            return None
+                        fits = [c for c in cands if got == (text.count(b"\n", 0, c) + 1, c - text.rfind(b"\n", 0, c))]
+                        cur = fits[0] if fits else cands[0]
+                    elif cands:
+                        cur = cands[0]
+                    replay_from = None
                 while cur < len(text) and text[cur] in _WS:
                     cur += 1
                 if not text.startswith(v[1], cur):
                     return ("bad", text, "the lexer yields %r where the text continues with %r" % (v[1], text[cur:cur + 12]))
-                got = position(ev[2])
+                got = got or position(ev[2])
                 if got is None:
                     return None
                 want = (text.count(b"\n", 0, cur) + 1, cur - text.rfind(b"\n", 0, cur))
                 n += 1
                 if got != want:
+                    e_ = cur + len(v[1])
+                    if got == (text.count(b"\n", 0, e_) + 1, e_ - text.rfind(b"\n", 0, e_)):
+                        return ("bad", text, "%swhile the token %r (offset %d) is handled, the lexer's position is already BEHIND it: curlineno() / "
+                                             "curcolno() give %r, the token starts at line %d, column %d" % (label, v[1], cur, got, want[0], want[1]), "Z1")
                     rw = " (after the parser asked for `{` once more)" if any(x[0] == "rewind" for x in evs[:i]) else ""
                     return ("bad", text, "%swhile the token %r (offset %d) is handled%s, curlineno() / curcolno() give %r; the token starts at line %d, "
                                          "column %d" % (label, v[1], cur, rw, got, want[0], want[1]))
